@@ -1,7 +1,9 @@
 mod adapter;
 mod builders;
+mod c02;
 mod c04;
 mod c08;
+mod c15;
 mod c17;
 mod c19;
 mod codec;
@@ -9,10 +11,14 @@ mod space;
 mod streams;
 mod tables;
 
+#[global_allocator]
+static ALLOC: c15::Counting = c15::Counting;
+
 fn main() {
     let ctx = vmc::report::Ctx::from_args();
     match ctx.id.as_str() {
         "C01" => codec::run_c01(&ctx),
+        "C02" => c02::run(&ctx),
         "C03" => codec::run_c03(&ctx),
         "C20" => codec::run_c20(&ctx),
         "C04" => c04::run(&ctx),
@@ -24,6 +30,7 @@ fn main() {
         "C10" => builders::run_c10(&ctx),
         "C13" => tables::run_c13(&ctx),
         "C14" => tables::run_c14(&ctx),
+        "C15" => c15::run(&ctx),
         "C16" => tables::run_c16(&ctx),
         "C17" => c17::run(&ctx),
         "C19" => c19::run(&ctx),
